@@ -106,6 +106,8 @@ func (sm *SeatManager) join(seatID int, p PlayerInfo) (int, error) {
 		return -1, ErrNotAvailable
 	}
 
+	verifGate("join.checked", seatID)
+
 	s.IsReserved = true
 	s.Player = p
 
@@ -567,6 +569,8 @@ func (sm *SeatManager) Join(seatID int, p PlayerInfo) (int, error) {
 
 	sm.mu.Lock()
 	defer sm.mu.Unlock()
+
+	verifSeq(seatID)
 
 	if seatID >= sm.max || seatID < -1 {
 		return -1, ErrInvalidSeat
